@@ -70,6 +70,17 @@ def cases(tier, seed):
                 for i in range(n):
                     for j in range(n):
                         out.append(dict(base, which="hess", i=i, j=j, mag="drop"))
+    # start points with small but non-zero components (1e-6, -1e-9, 1e-12)
+    for ti, (vk, obj, rows) in enumerate(table(tier)):
+        n, m = len(vk), len(rows)
+        base = {"ti": ti, "x0i": 2, "si": 0, "tier": tier, "x0_small": True}
+        out.append(dict(base, which="none"))
+        for j in range(n):
+            out.append(dict(base, which="grad", i=0, j=j, mag=30.0))
+            for i in range(m):
+                out.append(dict(base, which="jac", i=i, j=j, mag=30.0))
+            for i in range(n):
+                out.append(dict(base, which="hess", i=i, j=j, mag=30.0))
     # one Solver object solved several times: the check belongs to every solve (derivatives wrong only near the LATER start)
     for ti, (vk, obj, rows) in enumerate(table(tier)):
         n, m = len(vk), len(rows)
@@ -154,6 +165,8 @@ def run_case(case):
         spec = S.mk(n, obj, rows, vk, x0_idx=case["x0i"], tight=False)
         sc = S.scalings(n, m, [0.625, -1.25, 0.75][:n])[case["si"]]
         y0 = [0.75, -1.25][:m]
+        if case.get("x0_small"):
+            spec = dict(spec, x0=S.project([1e-6, -1e-9, 1e-12][:n], spec["var_lb"], spec["var_ub"]), tag=spec["tag"] + "|small_start")
     prob = UserProblem(spec)
     F = O.Funcs(spec)
     vw = np.array(sc["vw"], dtype=int) if sc else np.zeros(n, dtype=int)
